@@ -130,8 +130,15 @@ pub fn eval_c06_with(st: &State, max_rep_n: usize) -> Eval {
             }
         }
     }
-    // (a) differential: reflective tessellation of the 3^d-fold replicated set, central block
-    if n <= max_rep_n {
+    // (a) differential: reflective tessellation of the 3^d-fold replicated set, central block. In the tiny box the
+    // replicated *reflective* build is itself subject to the known finding R11 whenever an image lies on an outer
+    // wall (every lattice generator with a zero coordinate), so the differential oracle is not used there; the
+    // independent O-cell comparison (b) and the structural clauses still are.
+    let r11_oracle = t.l < 1e-9 && (0..n).any(|j| (0..dim).any(|ax| comp(st.gen_loc(j), ax) == comp(a, ax)));
+    if r11_oracle {
+        e.count("replicated_reflective_oracle_not_used(tiny box, image on an outer wall: R11)", 1);
+    }
+    if n <= max_rep_n && !r11_oracle {
         let offs = image_offsets(dim);
         let mut rgens = vec![];
         for o in &offs {
